@@ -45,10 +45,54 @@ def run_check(prop, props_file, pins, mixes, tier, seed, extra_assume=(), explan
 
 
 def replay(prop, path):
+    """re-execute the stored history against the real broker and the extracted Coq model; exit 1
+    iff a fresh run diverges with a class that contains `prop` (or the implementation panics).
+    The broker's hash maps are seeded per process and cookies are random, so a defect that depends
+    on iteration order shows only in some executions of the same history: the history is
+    re-executed up to VERIF_REPLAY_TRIES (default 12) times, until the violation shows."""
     r = json.load(open(path))
+    events = r.get("history", [])
+    print("recorded violation:")
     print(json.dumps({k: v for k, v in r.items() if k != "history"}, indent=1)[:3000])
-    for e in r.get("history", []):
+    print(f"history: {len(events)} injected events (recorded harness seed {r.get('history_seed')}, mix {r.get('mix', '?')})")
+    for e in events:
         print("  EV", e)
-    print("(the history is the list of injected events; harness seed = history_seed; "
-          "re-run `./check %s` to regenerate and compare)" % prop)
+    if not events:
+        print("the replay file has no history (an obligation replay): nothing to re-execute; "
+              "re-run `./check %s`" % prop)
+        return 0
+    o = Outcome(prop, "replay", 0)
+    if not broker.build(o):
+        print("BUILD FAILED: " + "; ".join(str(b)[:2000] for b in o.broken))
+        return 2
+    tries = max(1, int(os.environ.get("VERIF_REPLAY_TRIES", "12") or "12"))
+    agreeing, foreign = 0, []
+    for attempt in range(1, tries + 1):
+        d, rc, out, ok, steps, divs = broker.replay_history(prop, events)
+        if rc != 0:
+            print(f"REPLAY MACHINERY FAILED in {d} (exit {rc}): {out[:2000]}")
+            return 2
+        if not divs:
+            agreeing += 1
+            print(f"re-execution {attempt}: fresh verdict: OK replay steps={steps}")
+            continue
+        for dv in divs:
+            print(f"re-execution {attempt} in {d} (trace.txt = what the real broker did, verdict.txt = comparison "
+                  f"with the model): fresh verdict: DIVERGE step={dv['step']} what={dv['what']}")
+            print(f"  event: {dv['ev']}")
+            print(f"  impl : {dv['impl']}")
+            print(f"  model: {dv['model']}")
+            if dv["what"].startswith(("DRIVER", "HARNESS")):
+                print("  the history could not be re-executed to the end (harness/driver error)")
+                return 2
+            if prop in broker.classes(dv["what"]) or "implementation-panic" in dv["what"]:
+                same = "the same class as recorded" if dv["what"] == r.get("what") else f"recorded class: {r.get('what')}"
+                at = "at the recorded step" if dv["step"] == r.get("failing_step") else f"recorded step: {r.get('failing_step')}"
+                print(f"  REPRODUCED: violation of {prop} ({same}; {at}) in re-execution {attempt} of at most {tries}"
+                      + (f"; {agreeing} earlier re-execution(s) agreed with the model: the failure depends on the "
+                         f"broker's per-process hash-map order / random cookies" if agreeing else ""))
+                return 1
+            foreign.append(dv["what"])
+    print(f"the recorded violation did NOT reproduce in {tries} re-executions: {agreeing} agreed with the model on every step"
+          + (f", {len(foreign)} diverged with a class that does not contain {prop}: {sorted(set(foreign))}" if foreign else ""))
     return 0
